@@ -161,6 +161,7 @@ namespace Bee2V.C16.Br
 open WeierstrassCurve Bee2V.C06 Bee2V.C16
 
 section binary
+set_option linter.unusedSectionVars false
 variable {F : Type} [Field F] [DecidableEq F] {a B : F}
 
 theorem xyB_none (P : (Wb a B).Point) : curveBXY a B P = none ↔ P = 0 := by
@@ -255,4 +256,29 @@ theorem dCurveLaws [CharP F 2] (hodd : n % 2 = 1) : DCurveLaws (mathlibDstu f A 
   n_odd := hodd
 
 end binary
+end Bee2V.C16.Br
+
+/-! ### a toy binary instance: y² + xy = x³ + x² + 1 over GF(8), base point (3, 3) of order 7 -/
+
+namespace Bee2V.C16.Br
+open WeierstrassCurve Bee2V.C06 Bee2V.C16
+
+instance gf8CharP : CharP Fld.GF8 2 :=
+  CharTwo.of_one_ne_zero_of_two_eq_zero (by decide) (by rw [← one_add_one_eq_two]; exact Fld.gf8_laws.char2 1)
+
+theorem gf8Ns (x y : Fld.GF8) (h : y ^ 2 + x * y = x ^ 3 + bitF Fld.GF8 true * x ^ 2 + 1) (hx : x ≠ 0) :
+    (Wb (bitF Fld.GF8 true) (1 : Fld.GF8)).Nonsingular x y :=
+  (Wb_nonsingular _ _ _ _).2 ⟨h, Or.inr hx⟩
+
+theorem gf8P_ns : (Wb (bitF Fld.GF8 true) (1 : Fld.GF8)).Nonsingular ⟨3⟩ ⟨3⟩ :=
+  gf8Ns _ _ (by decide +kernel) (by decide)
+
+noncomputable def gf8P : (Wb (bitF Fld.GF8 true) (1 : Fld.GF8)).Point := .some _ _ gf8P_ns
+
+/-- 7 • (3, 3) = O read off the run of the model of `ecHasOrderA` over the table of `ec2CreateLD` -/
+theorem gf8P_order (k : Nat) : k • gf8P = 0 ↔ 7 ∣ k :=
+  order_of_prime (by decide) (Affine.Point.some_ne_zero _)
+    ((ecHasOrderA_curveB (A := bitF Fld.GF8 true) (B := (1 : Fld.GF8)) (a := (⟨3⟩, ⟨3⟩)) ⟨gf8P_ns, rfl⟩ 64 1 7).1
+      (by decide +kernel)) k
+
 end Bee2V.C16.Br
